@@ -396,6 +396,35 @@ def anchor_pos(item, anchor):
                 cnt += 1
             pos = le
         raise ExtractError("anchor lost: %s in %s" % (a, item.path))
+    m = re.match(r"closure\s+(\d+)\s+(open|close)$", a)
+    if m:
+        # k-th closure in the body (source order): `open` = just after its parameter list
+        # `|..|`, `close` = just before the bracket that closes the enclosing call (the closure is
+        # the last argument) -- used to wrap a closure body as `-> (o: T) ensures .. { body }`
+        want, which = int(m.group(1)), m.group(2)
+        k, cnt = item.tok_body + 1, 0
+        while k < item.tok_last:
+            t = toks[k]
+            if t[0] == "p" and t[1] == "|" and toks[k - 1][0] == "p" and toks[k - 1][1] in "(,=":
+                j = k + 1
+                while not (toks[j][0] == "p" and toks[j][1] == "|"):
+                    j += 1
+                if cnt == want:
+                    if which == "open":
+                        return toks[j][3]
+                    d, e = 0, j + 1
+                    while e < item.tok_last:
+                        u = toks[e]
+                        if u[0] == "p" and u[1] in OPEN:
+                            e = match_close(toks, e)
+                        elif u[0] == "p" and (u[1] in CLOSE or u[1] == ","):
+                            return u[2]
+                        e += 1
+                    raise ExtractError("anchor lost: closure end in %s" % item.path)
+                cnt += 1
+                k = j
+            k += 1
+        raise ExtractError("anchor lost: %s in %s" % (a, item.path))
     m = re.match(r"(pre|post)\s+\"(.*)\"(?:\s+(\d+))?$", a)
     if m:
         mode, lit, nth = m.group(1), m.group(2), int(m.group(3) or 0)
